@@ -11,7 +11,7 @@ from .. import gram
 sys.path.insert(0, os.path.join(C.VERIF, "tools"))
 
 
-def sentences(rng, gprods, nts, n, maxdepth=9):
+def sentences(rng, gprods, nts, n, maxdepth=12):
     by = {}
     for h, b in gprods:
         by.setdefault(h, []).append(b)
@@ -21,13 +21,15 @@ def sentences(rng, gprods, nts, n, maxdepth=9):
         alts = by[sym]
         if depth <= 0:
             alts = sorted(alts, key=len)[:2]
+        elif len(alts) > 2 and rng.random() < 0.5:
+            alts = sorted(alts, key=len)[2:]        # prefer the rarer, longer alternatives half of the time
         res = []
         for s in rng.choice(alts):
             if s in by:
                 res += expand(s, depth - 1)
             else:
                 res.append(s)
-            if len(res) > 60:
+            if len(res) > 90:
                 raise RecursionError
         return res
     for _ in range(4 * n):
@@ -49,57 +51,70 @@ def run(tier):
     ttype = {n: k for k, n in enumerate(fe_terms)}
     gprods = info["grammar"]
     nts = {h for h, _ in gprods}
-    # token sequences (front-end types 1..n-1; 0 is end of input)
     alpha = list(range(1, len(fe_terms)))
-    seqs = [[]]
-    maxlen = 3 if tier == "quick" else 4
-    for l in range(1, maxlen + 1):
-        seqs += [list(t) for t in itertools.product(alpha, repeat=l)]
-    sents = [[ttype[s] for s in w] for w in sentences(ck.rng, gprods, nts, 300 if tier == "quick" else 6000)]
-    seqs += sents
-    for w in sents:
-        for _ in range(3):
-            v = list(w)
-            k = ck.rng.random()
-            if k < 0.35 and v:
-                del v[ck.rng.randrange(len(v))]
-            elif k < 0.7:
-                v.insert(ck.rng.randint(0, len(v)), ck.rng.choice(alpha))
-            elif v:
-                v[ck.rng.randrange(len(v))] = ck.rng.choice(alpha)
-            seqs.append(v)
-    seqs = [list(x) for x in dict.fromkeys(map(tuple, seqs))]
-    lines = ["feparse " + " ".join(map(str, w)) for w in seqs]
-    impl = C.run_lines(C.build_drv(), lines)[1]
-    model = C.run_model(lines, timeout=3000)
-    # Earley oracle on the ebnf grammar itself (terminals aliased so that "error"/"empty" stay ordinary terminals)
     alias = {n: "T%d" % (k + 1) for k, n in enumerate(fe_terms)}
     syn = [(h, [(0, s) if s in nts else (1, alias[s]) for s in b], 0, 0) for h, b in gprods[1:]]
     reg = "G 0 " + gram.encode({"lex": [], "syn": syn})
     mterms = [bytes.fromhex(h[1:]).decode() for h in C.run_model([reg, "terminals 0"])[1].split()]
     mtype = {int(n[1:]) - 1: k for k, n in enumerate(mterms) if n.startswith("T")}     # front-end type -> model terminal index
-    earley = C.run_model([reg] + ["earley 0 " + " ".join(str(mtype.get(t, 0)) for t in w) for w in seqs], timeout=6000)[1:]
-    accepted = 0
-    nontrivial = set()
-    for w, i, m, e in zip(seqs, impl, model, earley):
-        iv = "accept" if i.startswith(("accept", "semerr")) else "reject"
-        accepted += iv == "accept"
-        if len(w) >= 4:
-            nontrivial.add(tuple(w))
-        sentence = e.startswith("yes")
-        names = [fe_terms[t] for t in w]
-        if (iv == "accept") != sentence:
-            ck.violation("gocc's own parser %ss the token sequence %s, which is %sa sentence of spec/gocc2.ebnf" % (iv, names, "" if sentence else "not "),
-                         {"tokens": names, "types": w, "impl": i, "earley": e})
-        elif not i.startswith("semerr") and i != m:
-            ck.violation("correspondence broken: front-end Parse vs Gocc.parse on the regenerated tables: tokens %s: impl %s model %s" % (names, i, m),
-                         {"tokens": names, "impl": i, "model": m, "unchecked": "correspondence Gocc.parse vs internal/frontend/parser Parse"}, found_input=False)
+    maxlen = 3 if tier == "quick" else 4
+    state = {"seqs": 0, "accepted": 0, "nontrivial": set(), "sents": []}
+
+    def differential(n_sent, exhaustive):
+        """token sequences (front-end types 1..n-1; 0 is end of input): real parser vs Earley on the ebnf vs the Parse model"""
+        seqs = [[]]
+        if exhaustive:
+            for l in range(1, maxlen + 1):
+                seqs += [list(t) for t in itertools.product(alpha, repeat=l)]
+        sents = [[ttype[s] for s in w] for w in sentences(ck.rng, gprods, nts, n_sent)]
+        state["sents"] = sents
+        seqs += sents
+        for w in sents:
+            for _ in range(3):
+                v = list(w)
+                k = ck.rng.random()
+                if k < 0.35 and v:
+                    del v[ck.rng.randrange(len(v))]
+                elif k < 0.7:
+                    v.insert(ck.rng.randint(0, len(v)), ck.rng.choice(alpha))
+                elif v:
+                    v[ck.rng.randrange(len(v))] = ck.rng.choice(alpha)
+                seqs.append(v)
+        seqs = [list(x) for x in dict.fromkeys(map(tuple, seqs))]
+        ck.rng.shuffle(seqs)          # one parser object serves all of them: verdicts must not depend on the order
+        lines = ["feparse " + " ".join(map(str, w)) for w in seqs]
+        impl = C.run_lines(C.build_drv(), lines)[1]
+        model = C.run_model(lines, timeout=3000)
+        earley = C.run_model([reg] + ["earley 0 " + " ".join(str(mtype.get(t, 0)) for t in w) for w in seqs], timeout=6000)[1:]
+        found = 0
+        for w, i, m, e in zip(seqs, impl, model, earley):
+            iv = "accept" if i.startswith(("accept", "semerr")) else "reject"
+            state["accepted"] += iv == "accept"
+            if len(w) >= 4:
+                state["nontrivial"].add(tuple(w))
+            sentence = e.startswith("yes")
+            names = [fe_terms[t] for t in w]
+            if (iv == "accept") != sentence:
+                found += 1
+                ck.violation("gocc's own parser %ss the token sequence %s, which is %sa sentence of spec/gocc2.ebnf" % (iv, names, "" if sentence else "not "),
+                             {"tokens": names, "types": w, "impl": i, "earley": e})
+            elif not i.startswith("semerr") and i != m:
+                ck.violation("correspondence broken: front-end Parse vs Gocc.parse on the regenerated tables: tokens %s: impl %s model %s" % (names, i, m),
+                             {"tokens": names, "impl": i, "model": m, "unchecked": "correspondence Gocc.parse vs internal/frontend/parser Parse"}, found_input=False)
+        state["seqs"] += len(seqs)
+        return found
+
+    found = differential(300 if tier == "quick" else 6000, True)
+    if failed and not found:
+        # a regenerated obligation no longer checks: search harder for an input on which the property fails
+        differential(60000, False)
+    seqs_n, accepted, nontrivial, sents = state["seqs"], state["accepted"], state["nontrivial"], state["sents"]
     for pr in info["problems"]:
         ck.violation("tables.go and spec/gocc2.ebnf drifted apart: " + pr, {"problem": pr}, found_input=False)
     if failed:
         # a regenerated obligation no longer checks: the differential run above is the search for a failing input
         ck.proof_failures(failed, "C15 theorems over the regenerated tables / grammar")
-    ck.cov.update({"evaluations": len(seqs), "distinct_nontrivial": len(nontrivial), "exhaustive_up_to_length": maxlen,
+    ck.cov.update({"evaluations": seqs_n, "distinct_nontrivial": len(nontrivial), "exhaustive_up_to_length": maxlen,
                    "accepted": accepted, "states": info["states"], "productions": info["productions"], "regenerated_file_changed": info["changed"],
                    "rule": "all token sequences over the 21 front-end token types up to length %d, sentences of the ebnf from a derivation generator and three single-token "
                            "mutations of each; judged by an Earley recogniser running on the ebnf grammar and compared with the Parse model on the regenerated tables; "
